@@ -11,6 +11,7 @@ SKELETONS = [
     R + "variable.go:NewDerivedVariable4",
     R + "utils.go:callback.LockExecution", R + "utils.go:callback.MarkUnsubscribed",
     R + "set_impl.go:set.Apply", R + "set_impl.go:readableSet.OnUpdate",
+    R + "set_impl.go:set.apply", R + "sorted_set_impl.go:sortedSet.updatePosition", R + "sorted_set_impl.go:sortedSet.swap",
     R + "set_impl.go:set.Compute", R + "set_impl.go:readableSet.SubtractReactive", R + "set_impl.go:derivedSet.InheritFrom",
     R + "set_impl.go:derivedSet.inheritMutations", R + "set_impl.go:derivedSet.applyInheritedMutations",
     R + "counter_impl.go:counter.Monitor",
@@ -42,7 +43,7 @@ SPEC = {
         "C14_sorted_set", "C14_sorted_set_spec", "C14_sorted_set_members", "C14_sorted_set_absent_weight",
         "C14_eviction", "C14_eviction_unique", "C14_eviction_pre", "C14_eviction_concurrent", "C14_eviction_concurrent_safety",
         "C14_waitgroup_sequential", "C14_waitgroup_counter", "C14_waitgroup_only_if", "C14_waitgroup",
-        "C14_deadlock_free", "C14_scripts_ranked",
+        "C14_deadlock_free", "C14_scripts_ranked", "C14_ranked_deadlock_free",
         "C14_derived_set_old_replace_witness", "C14_counter_old_unsubscribe_witness", "C14_waitgroup_old_race_witness",
         "C14_sorted_set_inversion_witness", "C14_sorted_set_add_window_witness", "C14_sorted_set_callback_locked",
         "C14_skeleton_variable_Compute", "C14_skeleton_NewDerivedVariable2", "C14_skeleton_readableVariable_OnUpdate", "C14_skeleton_sortedSet_deleteSorted",
